@@ -27,14 +27,14 @@ def run_one(out):
         sid = os.path.basename(out)
         prop = sid.split('-')[0]
         props = EXTRA.get(sid, [prop])
-        p = subprocess.run([os.path.join(V, 'tools', 'seedrun.py'), out, prop, '--props', ','.join(props)], stdout=subprocess.PIPE, stderr=subprocess.STDOUT, text=True)
+        p = subprocess.run([os.path.join(V, 'tools', 'seedrun.py'), out, prop, '--props', ','.join(props), '--no-confirm', '--save-corpus'] if os.environ.get('SEED_FAST') else [os.path.join(V, 'tools', 'seedrun.py'), out, prop, '--props', ','.join(props)], stdout=subprocess.PIPE, stderr=subprocess.STDOUT, text=True)
         try:
             r = json.loads(p.stdout[p.stdout.index('{'):])
         except Exception:
             r = {'error': p.stdout[-500:]}
         meta = json.load(open(os.path.join(out, 'meta.json')))
         meta['verification'] = {'head_of_repo': subprocess.run('git -C /repo log --format=%h -1', shell=True, stdout=subprocess.PIPE, text=True).stdout.strip(),
-                                'confirmed': r.get('confirmed'), 'confirm': r.get('confirm'), 'caught': r.get('caught'),
+                                'confirmed': r.get('confirmed', (meta.get('verification') or {}).get('confirmed')), 'confirm': r.get('confirm', (meta.get('verification') or {}).get('confirm')), 'caught': r.get('caught'),
                                 'checks': {k: {'rc': v['rc'], 'wall_s': v['wall'], 'first_lines': v['lines'][:3]} for k, v in r.get('checks', {}).items()}, 'error': r.get('error')}
         json.dump(meta, open(os.path.join(out, 'meta.json'), 'w'), indent=1)
         print(sid, 'confirmed', r.get('confirmed'), 'caught-by', [k for k, v in r.get('checks', {}).items() if v['rc'] == 1], 'missed-by', [k for k, v in r.get('checks', {}).items() if v['rc'] != 1], flush=True)
